@@ -48,6 +48,9 @@ Failing(h, e, fl) ==
       \* an object whose views / shape were already reported stays flagged and is not reported again
       views == \A i \in 1..n : i \in fl \/ ViewsOK(e.objs[i])
       rect  == \A i \in 1..n : i \in fl \/ Rect(obs[i])
+      \* ... and an object that is neither the receiver nor created by this step: its access paths were made to disagree
+      \* by an operation on ANOTHER object (the two share storage behind one of the paths)
+      othersViews == views \/ \A i \in 1..Len(h) : (i = recv \/ i \in fl \/ i > n) \/ ViewsOK(e.objs[i])
       newObs == [k \in 1..(n - Len(h)) |-> obs[Len(h) + k]]
       checks ==
         IF e.kind = "panic" THEN [noPanic |-> \E i \in argObjs \ {0} : i \in fl \/ HasDupNames(h[i])]   \* (not judged on an object already reported)
@@ -111,7 +114,7 @@ Failing(h, e, fl) ==
           [errClass |-> (e.kind = "err") = mustErr,
            allowed  |-> IF e.kind = "err" THEN obs[recv] = h[recv] /\ n = Len(h)
                         ELSE mustErr \/ Allowed(h, op, recv, a, obs[recv], newObs, e.ret),
-           frame |-> frame, views |-> views, rect |-> rect]
+           frame |-> frame, views |-> views, othersViews |-> othersViews, rect |-> rect]
         ELSE
           LET R == Step(h, op, recv, a) IN
           [errClass  |-> op \in UnjudgedCreators \/ (e.kind = "err") = R.err,
@@ -120,7 +123,7 @@ Failing(h, e, fl) ==
                          ELSE IF R.err \/ e.kind = "err" THEN n = Len(h) ELSE newObs = R.new,
            ret       |-> R.err \/ e.kind = "err" \/ ~R.j \/ RetOK(op, a, R.ret, e.ret),
            folded    |-> R.err \/ e.kind = "err" \/ ~R.j \/ FoldedOK(op, a, R.ret, e.ret),
-           frame |-> frame, views |-> (~R.j) \/ views, rect |-> (~R.j) \/ rect]
+           frame |-> frame, views |-> (~R.j) \/ views, othersViews |-> (~R.j) \/ othersViews, rect |-> (~R.j) \/ rect]
   IN {k \in DOMAIN checks : ~checks[k]}
 
 NoSeed(a) == [x \in (DOMAIN a) \ {"seed", "mk", "sup"} |-> a[x]]
